@@ -11,14 +11,14 @@ import (
 
 // transport bundles the anchors of the write-side lock protocol (shared by C09, C10, C11).
 type transport struct {
-	c                                  *Ctx
-	conn, mu, writeErr, writeErrMu     *types.Var
-	mWrite, mSetWD                     *types.Func
-	writeFatal                         *ssa.Function
-	closeMsg                           int64
-	errCloseSent                       *ssa.Global
-	unprot                             map[*ssa.Function]bool // perform a transport write without acquiring mu themselves
-	sites                              map[*ssa.Function]bool // functions containing transport writes (direct or via unprot helper)
+	c                              *Ctx
+	conn, mu, writeErr, writeErrMu *types.Var
+	mWrite, mSetWD                 *types.Func
+	writeFatal                     *ssa.Function
+	closeMsg                       int64
+	errCloseSent                   *ssa.Global
+	unprot                         map[*ssa.Function]bool // perform a transport write without acquiring mu themselves
+	sites                          map[*ssa.Function]bool // functions containing transport writes (direct or via unprot helper)
 }
 
 func newTransport(c *Ctx) *transport {
